@@ -7,6 +7,7 @@ HARNESS_FILES = ['pkg/frame/zz_verif_common.go', 'pkg/frame/zz_verif_c06.go', 'p
                  'pkg/frame/zz_verif_c02.go', 'pkg/frame/zz_verif_c05.go', 'pkg/frame/zz_verif_export.go',
                  'pkg/frame/zz_verif_msgs.go', 'pkg/streamwriter/zz_verif_c09.go', 'zz_verif_node.go', 'zz_verif_c10.go']
 KERNEL_PKGS = ['.']
+NATIVE_ROOT_PREFIXES = ('verifHarness_C06_', 'verifHarness_C09_', 'verifHarness_C01_')
 CLOCK_PKGS = ['pkg/streamwriter']
 ROOTS = ['verifHarness_C06', 'verifHarness_C09_step', 'verifHarness_C01_v2']
 ALLOW = 'bufio,io,encoding/binary,errors,bytes'
